@@ -770,10 +770,11 @@ class map_async(Stream):
         return stop_work, work_task
 
     def start(self):
-        if self.work_task:
-            stop_work, _ = self.work_task
-            stop_work.set()
-        self.work_task = self._create_work_task()
+        # start() walks upstream from every node it is called on, so it can reach
+        # this node while it is running: replacing a live worker would leave two
+        # workers taking tasks off the queue and emitting out of order
+        if self.work_task is None or self.work_task[1].done():
+            self.work_task = self._create_work_task()
         super().start()
 
     def stop(self):
